@@ -75,6 +75,10 @@ fn split_children(
     let a = elem_idx[s];
     let b = elem_idx[s + len - 1];
     let mut moved: Vec<Child> = children.drain(a..=b).collect();
+    if moved.len() >= 2 && rng.chance(1, 3) {
+        // a line comment between two elements of the include file
+        moved.insert(1, Child::Comment(format!("// inc note {}", *counter)));
+    }
     *counter += 1;
     let sub = match rng.below(3) {
         0 => String::new(),
@@ -104,7 +108,10 @@ fn split_children(
     // includes inside the nested blocks that stay in this file
     for c in children.iter_mut() {
         if let Child::Elem(e) = c {
-            if e.has_opts && e.is_block && e.tag != "IF_DATA" && e.tag != "A2ML" && rng.chance(1, 4) {
+            // RECORD_LAYOUT is the block whose items the writer reorders (position restriction):
+            // directives inside it are the interesting ones
+            let p = if e.tag == "RECORD_LAYOUT" { 3 } else { 1 };
+            if e.has_opts && e.is_block && e.tag != "IF_DATA" && e.tag != "A2ML" && rng.chance(p, 4) {
                 split_children(rng, &mut e.children, includer_rel, level, max_level, counter, out, info, false);
             }
         }
@@ -459,7 +466,7 @@ pub fn run(args: &Args, rec: &mut Recorder) {
         }
         let mut cfg = crate::c01::gen_cfg_wide(rng, false);
         cfg.max_elems = *rng.pick(&[20usize, 60, 120]);
-        cfg.comments_pct = 5;
+        cfg.comments_pct = *rng.pick(&[5u32, 5, 30]);
         cfg.multiline_comments = false;
         cfg.a2ml = false;
         // RESERVED items in position order: their reordering on write is C01's known finding, not C16's business
